@@ -133,7 +133,7 @@ theorem handleLogon_pool {c : Ctx} (hc : CtxOK c) {s : Sess} (hs : s.cfg = c.cfg
   -- the reply
   have hp2 : s2.cfg.persist = true := by rw [hcfg2]; exact hc.persist
   have ho2 : s2.out = true := by rw [e2.fr.out]; exact ho
-  rw [logonTail_off _ _ (by rw [hcfg2]; exact hc.nx), pf_flag hc hw]
+  rw [logonTail_off _ _ _ (by rw [hcfg2]; exact hc.nx), pf_flag hc hw]
   have hfin : ∀ x : Sess, ∀ n0 W q0, Eff s x n0 W q0 → ∀ ns : Int, ∃ s1, Eff s s1 n0 W q0 ∧
       logonFinish x (toIn c.pcfg m) ns =
         if m.seq > s.store.target then (s1, some (LogonErr.rej (Rej.tooHigh m.seq s.store.target))) else (incrTarget s1, none) := by
@@ -157,12 +157,12 @@ theorem handleLogon_pool {c : Ctx} (hc : CtxOK c) {s : Sess} (hs : s.cfg = c.cfg
     · simp [h2]
   rcases eff_logonReply s2 (toIn c.pcfg m) hp2 ho2 with ⟨hi, hr⟩ | ⟨hi, mL, hl1, hl2, hr⟩
   · rw [hr]
-    obtain ⟨s3, e3, h3⟩ := hfin s2 0 [] s.toSend e2 s2.store.sender
+    obtain ⟨s3, e3, h3⟩ := hfin s2 0 [] s.toSend e2 s.store.sender
     exact ⟨s3, 0, [], s.toSend, Or.inl ⟨by rw [← e2.fr.cfg]; exact hi, rfl, rfl, rfl⟩, e3, h3⟩
   · have e3 : Eff s (logonReply s2 (toIn c.pcfg m) false) 1 [mL] [] := by
       have := e2.trans hr
       simpa using this
-    obtain ⟨s3, e3', h3⟩ := hfin _ 1 [mL] [] e3 s2.store.sender
+    obtain ⟨s3, e3', h3⟩ := hfin _ 1 [mL] [] e3 s.store.sender
     refine ⟨s3, 1, [mL], [], Or.inr ⟨by rw [← e2.fr.cfg]; exact hi, rfl, rfl, mL, by rw [← e2.fr.cfg]; exact hl1, ?_, rfl⟩, e3', h3⟩
     rw [hl2, e2.snd]; omega
 
